@@ -1134,6 +1134,7 @@ func init() {
 		Rule: "family texttable-lifecycle: every sequence of <=5 (thorough 6) operations {set a known name, another known name, an unknown name, a custom decoration, register the unknown name, Render} on ONE long-lived TextTable (refuses to render exactly while its current name is unknown, otherwise renders with the current decoration); family sequential: every sequence of <=4 (thorough 5) operations from {Register(n,d1), Register(n,d2), Register(m,d1), Named(n), Named(never), List, List followed by the caller overwriting/appending to/sorting the returned slice, SetDecorationNamed(n)+Render, SetDecorationNamed(never)+Render} checked against a map model after each step (incl. fails-closed: unknown name => error and refused render); " +
 			"families 3-threads-1-op (9^3 programs, <=2 preemptions; thorough <=4), 2-threads-2-ops (9^4 programs, <=3 preemptions; thorough all), thorough 3-threads-2-ops (<=2 preemptions): names forced to collide, every schedule explored, each followed by final reads; " +
 			"families fresh-names-2-threads-2-ops (<=1 preemption, thorough 3) and fresh-names-3-threads-1-op (<=2, thorough 3) over a 7-op menu with names AND decoration values never used before in the process; " +
+			"family sequential-crowded-registry: k in {1,2,3,4,7,9,10,11,15,27} other names registered first, then every sequence of <=3 (thorough 4) operations, bystander names checked after every step; " +
 			"oracle per schedule: no deadlock, no panic, no pair of conflicting accesses to the registry map unordered by happens-before, and the call/return history linearizable; non-trivial = every concurrent program; distinct by program and by observed outcome vector",
 		Assumptions: []string{"interleavings are explored at the granularity of hooked points (sync operations, accesses to package-level variables that are assigned outside init, harness yields); memory-model effects below that are only seen by the separate free-running -race pass",
 			"aliasing through pointers/method receivers and state inside the standard library are not instrumented", "the registry is process-global: every execution uses names unique to it"},
@@ -1146,7 +1147,7 @@ func init() {
 		Overlay:   true,
 		Technique: "stateless model checking of concurrent build+render programs on the real code under a cooperative scheduler (overlay-instrumented), preemption-bounded DFS; per-schedule oracle: outputs equal the same program run alone, vector-clock race freedom on instrumented package-level state, no deadlock",
 		Rule: "family cold-start: in each of the 16 worker processes the very first use of the library is a two-thread program (lazily initialised package state is initialised under the scheduler); programs: every ordered pair of 6 formats (csv, json, markdown, html+row classes, text by registered name, text custom), each thread creating its own table through that package's New, populating it, registering a recording render callback and rendering twice to its own writer, with and without a third thread that registers a decoration, lists and looks up names; " +
-			"thread bodies differ (every other thread right-aligns a column), copy one shared template cell VALUE carrying properties into their own table, stamp their own cells from the callback and read the stamps back; scheduling points: every Write on the threads' writers, every callback invocation, every harness step, every sync operation (Mutex, RWMutex, Once, WaitGroup, Pool as a deterministic LIFO list, sync/atomic on package-level variables with acquire/release edges) and every access to a mutable package-level variable of the repository; all schedules with <=1 preemption with the registry thread and <=2 without it (thorough: 2 and 3, plus all triples of formats with <=1); non-trivial = every program; distinct by program",
+			"thread bodies differ (every other thread right-aligns a column), copy one shared template cell VALUE carrying properties into their own table, stamp their own cells from the callback and read the stamps back; scheduling points: every Write on the threads' writers, every callback invocation, every harness step, every sync operation (Mutex, RWMutex, Once, WaitGroup, Pool as a deterministic LIFO list, sync/atomic on package-level variables with acquire/release edges) and every access to a mutable package-level variable of the repository; all schedules with <=1 preemption with the registry thread and <=2 without it (thorough: 2 and 3, plus all triples of formats with <=1); family 2-renderers-string-results: two threads (all ordered pairs of 6 formats) take the string result of Render() twice, the text threads after one refused render, <=2 preemptions (thorough 3); element accesses through a local that directly aliases a package-level map or slice count as accesses of that variable; non-trivial = every program; distinct by program",
 		Assumptions: []string{"bounded by the preemption bound and the hooked-point granularity; state in the standard library and third-party packages (html/template, runewidth, encoding/json caches) is not instrumented: the separate free-running -race pass of the same thread bodies is supporting evidence for it",
 			"tables and wrappers are never shared between threads (the property is about distinct tables)"},
 		QuickBudget: 240 * time.Second, ThoroughBudget: 40 * time.Minute,
